@@ -33,6 +33,7 @@ CONSTANTS
     InitTreat,       \* treated-as table at start (factory table plus levels registered by the driver)
     InitErrDev,      \* error-device set at start
     WLevels,         \* severities for which per-level writers are explored
+    WantsLevel,      \* writers that ask to be told the severity before each Write (LevelSettable)
     MaxList,         \* bound on the length of attribute / writer / context-key lists in the exhaustive model
     Acts             \* enabled action families (subset of AllActs)
 
